@@ -77,6 +77,30 @@ func genCaseC05(t *rapid.T) *Case {
 	c.Assign, c.AnyInstalled = GenAssign(t, g, strategy)
 	c.Warm = GenWarm(t, s, p)
 	c.Op = d.Ops[0].Name
+	// some resolvers hand their value over together with an error: the value still has to be
+	// brought into the shape of the declared type (or replaced by null)
+	if rapid.Bool().Draw(t, "valueWithError") {
+		for i := 0; i < rapid.IntRange(1, 3).Draw(t, "nValErr"); i++ {
+			n := g.Nodes[rapid.IntRange(0, len(g.Nodes)-1).Draw(t, fmt.Sprintf("ve%dnode", i))]
+			if n.Type == "" || (c.Assign[n.ID] != "R" && c.Assign[n.ID] != "A") {
+				continue
+			}
+			fs := s.Type(n.Type).Fields
+			f := fs[rapid.IntRange(0, len(fs)-1).Draw(t, fmt.Sprintf("ve%dfield", i))]
+			if s.KindOf(f.Type.BaseName()) == hx.KEnum {
+				continue // (undeclared enum names pass: recorded finding KF-C05-enum-undeclared, kept apart)
+			}
+			dup := false
+			for _, e := range c.Faults {
+				if e.Node == n.ID && e.Field == f.Name {
+					dup = true
+				}
+			}
+			if !dup {
+				c.Faults = append(c.Faults, hx.Fault{Node: n.ID, Field: f.Name, Kind: "valerr"})
+			}
+		}
+	}
 	if p.Abstract {
 		for _, td := range s.Types {
 			if td.Kind == hx.KObject {
